@@ -39,12 +39,12 @@ func runSchedule(g *hx.Gen, w *world, sc schedule) {
 }
 
 type sched struct {
-	w      *world
-	gc     *gateCtl
-	login  map[int]*arrival       // RegisterControl goroutine of a session
-	sess   map[int]*arrival       // reader/worker goroutine
-	late   map[int]*arrival       // late Del goroutine
-	pend   map[int]*pendingLogin
+	w     *world
+	gc    *gateCtl
+	login map[int]*arrival // RegisterControl goroutine of a session
+	sess  map[int]*arrival // reader/worker goroutine
+	late  map[int]*arrival // late Del goroutine
+	pend  map[int]*pendingLogin
 }
 
 func newSched(w *world, gc *gateCtl) *sched {
